@@ -23,6 +23,7 @@ from google.protobuf.compiler import plugin_pb2
 from gapic import generator
 from gapic.schema import api
 from gapic.utils import Options
+from gapic.utils import verif_trace
 
 
 @click.command()
@@ -47,6 +48,8 @@ def generate(request: typing.BinaryIO, output: typing.BinaryIO) -> None:
 
     # Pull apart arguments in the request.
     opts = Options.build(req.parameter)
+    if verif_trace.ENABLED:
+        verif_trace.options_event(opts, req.parameter)
 
     # Determine the appropriate package.
     # This generator uses a slightly different mechanism for determining
@@ -55,6 +58,12 @@ def generate(request: typing.BinaryIO, output: typing.BinaryIO) -> None:
     package = os.path.commonprefix(
         [p.package for p in req.proto_file if p.name in req.file_to_generate]
     ).rstrip(".")
+    if verif_trace.ENABLED:
+        verif_trace.emit(
+            "Package",
+            package=package,
+            targets=[f.split("/") for f in req.file_to_generate],
+        )
 
     # Build the API model object.
     # This object is a frozen representation of the whole API, and is sent
@@ -65,6 +74,8 @@ def generate(request: typing.BinaryIO, output: typing.BinaryIO) -> None:
     # individual templates and renders them.
     # If there are issues, error out appropriately.
     res = generator.Generator(opts).get_response(api_schema, opts)
+    if verif_trace.ENABLED:
+        verif_trace.response_event(res)
 
     # Output the serialized response.
     output.write(res.SerializeToString())
